@@ -107,6 +107,12 @@ var bases6 = []string{
 	"8000::1",           // first bit set
 }
 
+// family-2 options whose address lies inside ::ffff:0:0/96 (IPv4-mapped): wire-valid, and every store keeps
+// IPv4 subnets at ::ffff:a.b.c.d/(96+n), so they are matched against the declared IPv4 subnets; the scope
+// must then be expressed in the client's (IPv6) family, i.e. 96+n
+var bases6mapped = []string{"::ffff:10.1.1.1", "::ffff:10.1.2.1", "::ffff:11.0.0.1"}
+var srcLens6Mapped = []int{96, 104, 112, 120, 121, 128}
+
 var srcLens4Quick = []int{0, 1, 8, 9, 16, 24, 25, 32}
 var srcLens6Quick = []int{0, 1, 32, 48, 56, 64, 128}
 
@@ -147,6 +153,15 @@ func buildECSVariants(thorough bool) []*ecsVar {
 	for _, l := range l6 {
 		for i, b := range bases6 {
 			add(2, b, l, i == 0)
+		}
+	}
+	lm := srcLens6Mapped
+	if thorough {
+		lm = allLens(128)[96:]
+	}
+	for _, l := range lm {
+		for _, b := range bases6mapped {
+			add(2, b, l, false)
 		}
 	}
 	return out
